@@ -935,7 +935,23 @@ func ftQueryStep(c *Chain, r *rand.Rand, pg *pager, crafted func() string) (map[
 	var q map[string]interface{}
 	var resp interface{}
 	kind := ""
-	switch n := r.Intn(5); {
+	switch n := r.Intn(6); {
+	case n == 5:
+		kind = "allPubKeys"
+		req, pj := pg.page(kind, c.rawKeys(fttypes.StoreKey, fttypes.PubkeyKeyPrefix))
+		q = map[string]interface{}{"allPubKeys": map[string]interface{}{"page": pageOrDefault(pj)}}
+		resp = safely(func() (interface{}, error) {
+			res, err := k.AllPubKeys(w, &fttypes.QueryAllPubKeys{Pagination: req})
+			if err != nil {
+				return nil, err
+			}
+			items := []interface{}{}
+			for _, p := range res.PubKey {
+				items = append(items, []string{p.Address, p.Key})
+			}
+			nk, tot := pg.note(kind, res.Pagination)
+			return listed("keys", items, nk, tot), nil
+		})
 	case n < 2:
 		kind = "file"
 		a, o := crafted(), crafted()
